@@ -20,7 +20,7 @@
     item of [items] for the value [a] with the formatter and runs [unambiguous_ws_b]. *)
 From Coq Require Import ZArith List Bool.
 From V Require Import Base.Int Base.IO Base.Utf8 Model.Scan Model.Items Model.Parse
-  Proofs.Utf8 Proofs.Scan Proofs.C13 Proofs.C13Reads Proofs.C13Fmt Proofs.C13Examples Proofs.C13Names Proofs.C13Digits Proofs.C13Safe Proofs.C13Time Proofs.C13Date Proofs.C13OneWay Proofs.C13View Proofs.C13DateTime.
+  Proofs.Utf8 Proofs.Scan Proofs.C13 Proofs.C13Reads Proofs.C13Fmt Proofs.C13Examples Proofs.C13Names Proofs.C13Digits Proofs.C13Safe Proofs.C13Time Proofs.C13Date Proofs.C13OneWay Proofs.C13View Proofs.C13DateTime Proofs.C13DateForms.
 From V Require Model.Parsed Model.Format Model.Strftime Model.Time Model.DateTime Spec.StrftimeDoc.
 Import ListNotations.
 Open Scope Z_scope.
@@ -289,6 +289,45 @@ Example C13_ndt_roundtrip_inhabited :
   Proofs.C08Sweeps.repr 2015 181 (Proofs.C08Sweeps.mkdate 2015 181) /\ valid_time (Model.Time.mk_time 86399 1999999999).
 Proof. exact ndt_roundtrip_inhabited. Qed.
 Print Assumptions C13_ndt_roundtrip_inhabited.
+
+(** ** format_parse_roundtrip END TO END for the other two date forms of NaiveDate: the ordinal form
+    "%Y-%j" ([YJ_FMT]) and the ISO week form "%G-W%V-%u" ([ISOW_FMT]; ISO year with its sign outside
+    0..=9999, ISO week 01..53, weekday 1..7 from Monday).  For EVERY NaiveDate, parsing the formatted
+    text returns the date itself; resolution by C14's completeness theorem on the (year, ordinal)
+    and (ISO year, ISO week, weekday) combinations. *)
+Theorem C13_date_yj_roundtrip : forall y o d, Proofs.C08Sweeps.repr y o d ->
+  exists text,
+    Model.Format.write_items (Model.Format.fa_of_date d) YJ_FMT [] = Model.Format.fok text /\
+    (let+ p := parse Model.Parsed.parsed_new text YJ_FMT in pr_of (Model.Parsed.to_naive_date p)) = pok d.
+Proof. exact date_yj_roundtrip. Qed.
+Print Assumptions C13_date_yj_roundtrip.
+
+Theorem C13_date_yj_parse_from_str : forall y o d, Proofs.C08Sweeps.repr y o d ->
+  exists text,
+    Model.Format.delayed_display (Model.Format.fa_of_date d) (Model.Strftime.sf_new yj_format) = Model.Format.fok text /\
+    date_parse_from_str text yj_format = pok d.
+Proof. exact date_yj_parse_from_str. Qed.
+Print Assumptions C13_date_yj_parse_from_str.
+
+Theorem C13_date_isow_roundtrip : forall y o d, Proofs.C08Sweeps.repr y o d ->
+  exists text,
+    Model.Format.write_items (Model.Format.fa_of_date d) ISOW_FMT [] = Model.Format.fok text /\
+    (let+ p := parse Model.Parsed.parsed_new text ISOW_FMT in pr_of (Model.Parsed.to_naive_date p)) = pok d.
+Proof. exact date_isow_roundtrip. Qed.
+Print Assumptions C13_date_isow_roundtrip.
+
+Theorem C13_date_isow_parse_from_str : forall y o d, Proofs.C08Sweeps.repr y o d ->
+  exists text,
+    Model.Format.delayed_display (Model.Format.fa_of_date d) (Model.Strftime.sf_new isow_format) = Model.Format.fok text /\
+    date_parse_from_str text isow_format = pok d.
+Proof. exact date_isow_parse_from_str. Qed.
+Print Assumptions C13_date_isow_parse_from_str.
+
+Example C13_date_forms_roundtrip_inhabited :
+  Proofs.C08Sweeps.repr 2014 365 (Proofs.C08Sweeps.mkdate 2014 365) /\
+  Proofs.C08Sweeps.repr (-262143) 1 (Proofs.C08Sweeps.mkdate (-262143) 1).
+Proof. exact date_forms_roundtrip_inhabited. Qed.
+Print Assumptions C13_date_forms_roundtrip_inhabited.
 
 (* the writes of the reader run through the real setters: whenever every recognised write puts a
    field of the record [F] (within the setter's range) the setters succeed from any record below
